@@ -987,6 +987,25 @@ def run_ocase(c, Pm):
                 fails.append('into_units(from_units(x)) != x')
         if not np.array_equal(vals_a, np.asarray(a._values_)):
             fails.append('into_units/from_units changed the operand')
+    elif op == 'convert_dunits':
+        # the derivative carries units of its own (seeded change C12-B): the two conversions stay mutually
+        # inverse on the object and on the derivative, in both orders
+        dobj = getattr(Pm, cls)(mk_values(cls, shape, 6), units=ub)
+        a.insert_deriv('t', dobj)
+        d0 = np.array(a.d_dt._values_, copy=True)
+        for nm, fn in (('from_units(into_units(x))', lambda: a.into_units().from_units()),
+                       ('into_units(from_units(x))', lambda: a.from_units().into_units())):
+            res = guarded(fn)
+            r1 = expect_units(res, ra, nm)
+            if r1 is not None:
+                if not np.allclose(np.asarray(r1._values_), vals_a, rtol=8 * 2.3e-16, atol=0):
+                    fails.append('%s != x' % nm)
+                if 't' not in r1._derivs_:
+                    fails.append('%s lost the derivative' % nm)
+                elif not np.allclose(np.asarray(r1.d_dt._values_), d0, rtol=8 * 2.3e-16, atol=0):
+                    fails.append('%s derivative != original (derivative with units of its own)' % nm)
+        if not np.array_equal(vals_a, np.asarray(a._values_)) or not np.array_equal(d0, np.asarray(a.d_dt._values_)):
+            fails.append('into_units/from_units changed the operand')
     elif op == 'boolean':
         how = c['how']
         if how == 'ctor':
@@ -1124,6 +1143,7 @@ def gen_cases(rng, tier, names):
                 for op in ADDITIVE + ['eq', 'ne']:
                     obj_cases.append({'kind': 'O', 'op': op, 'cls': cls, 'ua': ua, 'ub': ub})
                 obj_cases.append({'kind': 'O', 'op': 'set_units', 'cls': cls, 'ua': ua, 'ub': ub})
+                obj_cases.append({'kind': 'O', 'op': 'convert_dunits', 'cls': cls, 'ua': ua, 'ub': ub})
                 obj_cases.append({'kind': 'O', 'op': 'ctor', 'cls': cls, 'ua': ua, 'ub': ub})
                 for op in ('mul', 'rmul', 'imul', 'div', 'idiv'):
                     obj_cases.append({'kind': 'O', 'op': op, 'cls': cls, 'ua': ua, 'ub': ub})
